@@ -57,6 +57,7 @@ type Contract struct {
 	RepInvs  []*Clause
 	FrozenClock bool
 	Ghosts      []string
+	Except      []Expr // modifies * except ...
 	Afters      []*AfterHook
 	Hides       []string // pure spec functions treated as uninterpreted (heap-parametric) within this function's VC
 	ReadsClock  bool
@@ -241,6 +242,18 @@ func (cs *Contracts) parseFile(path string, pkg *types.Package) error {
 			cur.HasMod = true
 			if rest == "*" {
 				cur.ModAll = true
+				break
+			}
+			if strings.HasPrefix(rest, "* except ") {
+				// everything may change except the named locations (same target syntax as modifies)
+				cur.ModAll = true
+				for _, part := range splitTop(strings.TrimPrefix(rest, "* except ")) {
+					e, err := ParseExpr(part)
+					if err != nil {
+						return fail(rc, "%v", err)
+					}
+					cur.Except = append(cur.Except, e)
+				}
 				break
 			}
 			if rest == "nothing" {
